@@ -12,7 +12,7 @@ use std::sync::atomic::{AtomicU64, Ordering};
 
 #[derive(Clone, Debug, Serialize, Deserialize)]
 pub struct Case17 {
-    /// ASCII-only value texts
+    /// value texts (ASCII, or with raw multi-byte characters)
     pub texts: Vec<String>,
     /// per gap (texts.len()+1): (touch previous value if legal, whitespace seed, garbage tokens)
     pub gaps: Vec<(bool, u64, Vec<String>)>,
@@ -104,8 +104,10 @@ impl Check for C17Delivery {
     }
     fn strategy(&self, _t: Tier) -> BoxedStrategy<Case17> {
         let text = prop_oneof![
-            6 => (arb_gval(CharSet::Ascii, 3, 10), arb_spelling()).prop_map(|(v, sp)| serialise(&v, &sp)),
-            3 => prop::sample::select(vec!["1", "true", "null", "\"a\"", "[]", "{}", "-0.5", "[1,\n2]", "{\"a\":\n 1}", "12", "false"]).prop_map(|s| s.to_string()),
+            5 => (arb_gval(CharSet::Ascii, 3, 10), arb_spelling()).prop_map(|(v, sp)| serialise(&v, &sp)),
+            // raw multi-byte text: columns count bytes (the range is a byte range)
+            2 => (arb_gval(CharSet::Bmp, 3, 10), arb_spelling()).prop_map(|(v, sp)| serialise(&v, &sp)),
+            3 => prop::sample::select(vec!["1", "true", "null", "\"a\"", "[]", "{}", "-0.5", "[1,\n2]", "{\"a\":\n 1}", "12", "false", "\"\u{e9}\u{e9}\u{e9}\"", "[\"\u{65e5}\u{672c}\",\n\"\u{e9}\"]", "{\"\u{e9}\":1}"]).prop_map(|s| s.to_string()),
         ];
         let garbage = prop_oneof![
             5 => Just(Vec::<String>::new()),
@@ -128,9 +130,6 @@ impl Check for C17Delivery {
     fn check(&self, case: &Case17) -> CaseResult {
         let b = build(case);
         let bytes = &b.bytes;
-        if !bytes.is_ascii() {
-            return CaseResult::Discard("non-ASCII".into());
-        }
         let oo: Vec<String> = if case.only_objects { sv(&["--only-objects-and-arrays"]) } else { vec![] };
         let fail = |m: String| CaseResult::Fail(format!("{} [input {}]", m, esc_trunc(bytes, 400)));
         // ---------- A. delivery independence (stdin chunkings)
@@ -267,6 +266,7 @@ impl Check for C17Delivery {
         local.extend(oo.clone());
         let mut concat: Vec<u8> = Vec::new();
         let mut counts: Vec<usize> = Vec::new();
+        let mut singles: Vec<Vec<u8>> = Vec::new();
         for p in &paths {
             let mut a = local.clone();
             a.push(p.clone());
@@ -293,6 +293,7 @@ impl Check for C17Delivery {
             }
             counts.push(n);
             concat.extend_from_slice(&o.stdout);
+            singles.push(o.stdout.clone());
         }
         let mut a = local.clone();
         a.extend(paths.iter().cloned());
@@ -300,6 +301,20 @@ impl Check for C17Delivery {
         if multi.stdout != concat || !multi.res.is_ok() {
             cleanup();
             return fail(format!("files {:?}: output of the joint run differs from the concatenation of the single-file runs ({}): {} vs {}", cut_pos, multi.res.short(), esc_trunc(&multi.stdout, 400), esc_trunc(&concat, 400)));
+        }
+        // a file named twice is read twice (f1 .. fn, then f_k again)
+        {
+            let k = (bytes.len() + paths.len()) % paths.len();
+            let mut a = local.clone();
+            a.extend(paths.iter().cloned());
+            a.push(paths[k].clone());
+            let twice = run(&a, b"");
+            let mut exp = concat.clone();
+            exp.extend_from_slice(&singles[k]);
+            if twice.stdout != exp || !twice.res.is_ok() {
+                cleanup();
+                return fail(format!("files {:?} with file {} named a second time at the end: the output ({}) {} is not the joint output followed by that file's own output {}", cut_pos, k, twice.res.short(), esc_trunc(&twice.stdout, 400), esc_trunc(&exp, 400)));
+            }
         }
         // the same files given as one directory argument: the order of the files is the file
         // system's, but every file is still processed as a unit with its own index-in-file
@@ -377,6 +392,7 @@ impl Check for C17Delivery {
                 .class_if(b.noisy_gap.iter().any(|x| *x), "noisy")
                 .class_if(processed.len() < vals.len(), "scalars_skipped")
                 .class_if(line_starts.len() > 3, "multi_line")
+                .class_if(!bytes.is_ascii(), "multi_byte_text")
                 .obs(json!({"files": paths.len(), "rows_per_file": counts, "first_rows": esc_trunc(&whole.stdout, 300)})),
         )
     }
